@@ -35,4 +35,15 @@ CHECKS["C20"] = dict(
     engine="forksym+z3, crosshair",
 )
 
+CHECKS["C22"] = dict(
+    category="other",
+    technique="path-exhaustive symbolic execution of the real decorator (forksym: symbolic type tags, column presence, nullness) + z3 oracle equivalence",
+    text="The real SchemaRaises machinery runs on values whose type is a symbolic tag and on pandas object frames with symbolic column "
+         "presence / null cells / cell types; per path z3 decides 'raised <=> documented violation', 'function called <=> arguments conform' "
+         "and result identity. Specification shapes and switch histories are enumerated; counterexamples are replayed with real python values.",
+    note="Bounded: value types int/float/str/bool, <=2 declared columns, <=2 (quick) / <=3 (thorough) rows. Null scalar arguments, numpy scalar "
+         "types and Polars frames are outside the claim; message text unchecked. Trusted: z3, forksym, the oracle written from the property text.",
+    design_ref="DESIGN.md §4 C22",
+)
+
 NOT_YET = {}
